@@ -29,8 +29,17 @@ var c17Watchdog = func() time.Duration {
 	if v, err := time.ParseDuration(os.Getenv("C17_WATCHDOG")); err == nil && v > 0 {
 		return v
 	}
-	return 120 * time.Second
+	return 60 * time.Second
 }()
+
+var c17Stalls int32
+
+func c17WD() time.Duration {
+	if atomic.LoadInt32(&c17Stalls) > 0 {
+		return 5 * time.Second
+	}
+	return c17Watchdog
+}
 
 type c17Step struct {
 	Cap  int  `json:"cap"`
@@ -169,10 +178,11 @@ func (m *c17Mon) waitUntil(what string, cond func() bool) bool {
 		}
 		if e := atomic.LoadInt64(&m.events); e != last {
 			last, lastT = e, time.Now()
-		} else if time.Since(lastT) > c17Watchdog {
+		} else if wd := c17WD(); time.Since(lastT) > wd {
+			atomic.AddInt32(&c17Stalls, 1)
 			if atomic.CompareAndSwapInt32(&m.aborted, 0, 1) {
 				m.mu.Lock()
-				why := fmt.Sprintf("watchdog: no progress for %v while waiting for %s [kind=%s holders=%d cap=%d outstanding=%d]", c17Watchdog, what, m.script.Kind, m.holders, m.bound, m.pending)
+				why := fmt.Sprintf("watchdog: no progress for %v while waiting for %s [kind=%s holders=%d cap=%d outstanding=%d]", wd, what, m.script.Kind, m.holders, m.bound, m.pending)
 				m.mu.Unlock()
 				m.r.Inconclusive(why)
 				close(m.abort)
